@@ -14,7 +14,7 @@ theorem Dispatch.mkKey_injective (d : Dispatch) : ∀ a b, d.mkKey a = d.mkKey b
 
 /-- what the observer should know about a subscription held by the manager -/
 def Sub.repr (s : Sub) : Rec :=
-  ⟨s.notifyTo, s.endTo, s.filter, s.started, s.expire, s.errors, s.unsubAt.isSome, false⟩
+  ⟨s.notifyTo, s.endTo, s.filter, s.started, s.expire, s.errors, s.unsubAt.isSome, false, s.notifyRef, s.endRef⟩
 
 theorem grant_le_max (cfg : Cfg) (e : Option Nat) : grant cfg e ≤ cfg.maxDur := by
   unfold grant; split <;> omega
@@ -250,16 +250,16 @@ theorem sim_housekeeping {cfg : Cfg} {st : State} {m : Mon} (h : Sim cfg st m) :
       exact h.dead j r hr hn'
 
 theorem sim_subscribe {cfg : Cfg} {st : State} {m : Mon} (h : Sim cfg st m) (nt : Nat) (et : Option Nat)
-    (filter : Option (List Str)) (d : Bool) (e : Option Nat) :
-    Sim cfg (step cfg st (.subscribe nt et filter d e)).1
-      (m.step cfg (.subscribe nt et filter d e) (step cfg st (.subscribe nt et filter d e)).2) := by
+    (filter : Option (List Str)) (d : Bool) (e : Option Nat) (nr er : Bool) :
+    Sim cfg (step cfg st (.subscribe nt et filter d e nr er)).1
+      (m.step cfg (.subscribe nt et filter d e nr er) (step cfg st (.subscribe nt et filter d e nr er)).2) := by
   cases filter with
   | none => simp only [step, Mon.step]; exact h
   | some f =>
     by_cases hd : (cfg.checkDialect && !d) = true
     · simp only [step, hd, if_true, Mon.step]; exact h
     · simp only [step, hd, Bool.false_eq_true, if_false, Mon.step, renewed_remaining]
-      have hid : (renewed cfg st.now e ⟨st.nextId, nt, et, f, 0, 0, 0, false, none⟩).id = st.nextId := rfl
+      have hid : (renewed cfg st.now e ⟨st.nextId, nt, et, f, 0, 0, 0, false, none, nr, et.isSome && er⟩).id = st.nextId := rfl
       simp only [hid]
       refine ⟨h.now_eq, ?_, ?_, ?_, ?_, ?_⟩
       · show ((st.subs ++ [_]).map (fun x : Sub => x.id)).Nodup
@@ -303,7 +303,7 @@ def deliverable (cfg : Cfg) (st : State) (a : Str) (s : Sub) : Bool :=
 theorem deliver_pos {cfg : Cfg} {st : State} {ov : List (Nat × Outcome)} {a : Str} {s : Sub} (h : deliverable cfg st a s = true) :
     deliver cfg st ov a s =
       ({ s with errors := if st.outcomeFor ov s.id s.notifyTo = .ok then 0 else s.errors + 1 },
-       [⟨.notification a, s.id, s.notifyTo, st.outcomeFor ov s.id s.notifyTo⟩]) := by
+       [⟨.notification a, s.id, s.notifyTo, st.outcomeFor ov s.id s.notifyTo, s.notifyRefs⟩]) := by
   unfold deliverable at h
   simp [deliver, h]
 
@@ -376,7 +376,7 @@ theorem sim_notify {cfg : Cfg} {st : State} {m : Mon} (h : Sim cfg st m) (a : St
 theorem sim_step {cfg : Cfg} {st : State} {m : Mon} (hw : cfg.WF) (h : Sim cfg st m) (op : Op) :
     Sim cfg (step cfg st op).1 (m.step cfg op (step cfg st op).2) := by
   cases op with
-  | subscribe nt et f d e => exact sim_subscribe h nt et f d e
+  | subscribe nt et f d e nr er => exact sim_subscribe h nt et f d e nr er
   | renew k e => exact sim_renew hw h k e
   | getStatus k => exact sim_getStatus h k
   | unsubscribe k => exact sim_unsubscribe hw h k
